@@ -425,6 +425,13 @@ def mon_C06(run, cfg, seed):
     cur_ses = None
     for ev in log:
         k = ev[0]
+        if k == "snap.end":
+            checks += 1
+            if len({t for (_, t, _) in ev[3]}) != 1:
+                v = viol("C06", "C06/markets-clocks-differ-at-step-end", "all markets share one clock (also while a step is being closed)",
+                         {"step_end_of_market": ev[1], "times": ev[3]}, cfg, seed)
+                if not any(x["signature"] == v["signature"] for x in out):
+                    out.append(v)
         if k == "snap.begin":
             checks += 1
             mk_id, ses_id, times = ev[1], ev[2], ev[3]
@@ -513,7 +520,7 @@ def mon_C10(run, cfg, seed):
             nxt = log[i + 1] if i + 1 < len(log) else None
             # the snapshot record sits between direct and deliver for step-begin records
             j = i + 1
-            while j < len(log) and log[j][0] == "snap.begin":
+            while j < len(log) and log[j][0] in ("snap.begin", "snap.end"):
                 j += 1
             nxt = log[j] if j < len(log) else None
             if nxt is None or nxt[0] != "log.deliver" or nxt[2] != ev[2]:
